@@ -114,3 +114,92 @@ def codec_parse(w):
     if isinstance(getattr(m, "children", None), str) and m.children:
         probs.append("children is the string %r" % (m.children,))
     return {"reproduced": bool(probs), "detail": "; ".join(probs) or "parsed message is conformant"}
+
+
+@kind("codec.roundtrip")
+def codec_roundtrip(w):
+    from indi.message import IndiMessage
+    d = w["m"]
+    if d.get("too_large"):
+        return {"reproduced": False, "detail": "too large"}
+    try:
+        m = build(d)
+    except Exception as e:
+        return {"reproduced": False, "detail": "witness not constructible: %r" % (e,)}
+    if not isinstance(m, IndiMessage):
+        return {"reproduced": False, "detail": "part-level witness (no byte-level round trip for a part alone)"}
+    try:
+        data = m.to_string()
+        m2 = IndiMessage.from_string(data)
+        data2 = m2.to_string()
+    except Exception as e:
+        return {"reproduced": True, "detail": "from_string(to_string(m)) raised %r for %s" % (e, d["class"])}
+    probs = []
+    if m2.__class__ is not m.__class__:
+        probs.append("kind changed: %s -> %s" % (m.__class__.__name__, m2.__class__.__name__))
+
+    def norm(o, textfield="value"):
+        out = {}
+        for k, v in o.__dict__.items():
+            if k == "children":
+                continue
+            out[k] = None if v is None else str(v)
+            if k == textfield and out[k] is not None:
+                out[k] = out[k].strip() or None
+        return out
+    if norm(m) != {k: v for k, v in m2.__dict__.items() if k != "children"}:
+        probs.append("attributes changed: %r -> %r" % (norm(m), {k: v for k, v in m2.__dict__.items() if k != "children"}))
+    c1, c2 = list(getattr(m, "children", None) or ()), list(getattr(m2, "children", None) or ())
+    if len(c1) != len(c2):
+        probs.append("number of children changed: %d -> %d" % (len(c1), len(c2)))
+    else:
+        for a, b in zip(c1, c2):
+            if a.__class__ is not b.__class__ or norm(a) != dict(b.__dict__):
+                probs.append("child changed: %r -> %r" % (a.__dict__, b.__dict__))
+    if data != data2:
+        probs.append("second serialisation differs: %r vs %r" % (data, data2))
+    return {"reproduced": bool(probs), "detail": "; ".join(probs) or "round trip is the identity on this message"}
+
+
+@kind("codec.registry")
+def codec_registry(w):
+    import importlib
+    from indi.message import IndiMessage
+    cls = getattr(importlib.import_module(w["module"]), w["class"])
+    ok = cls in IndiMessage.all_message_classes()
+    return {"reproduced": not ok, "detail": "%s is %sregistered with the parser" % (w["class"], "" if ok else "NOT ")}
+
+
+@kind("codec.et_sample")
+def et_sample(w):
+    """Bounded conformance sample of the assumed xml.etree round-trip contract."""
+    import random
+    import xml.etree.ElementTree as ET
+    rnd = random.Random(w.get("seed", 0))
+    alphabet = ["a", "Z", "0", " ", "\n", "\t", "<", ">", "&", "'", '"', "=", "/", "?", "!", "-", "]", "é", "ÿ", "Ж", "中", "\U0001F600", " ", ";"]
+    cases, bad = 0, []
+
+    def rs(n):
+        return "".join(rnd.choice(alphabet) for _ in range(n))
+    corpus = ["", "x", "a b", "<tag>", "&amp;", "\"q'", "a\nb", "  lead", "trail  ", "]]>", "\U0001F600", "é<&>\"'"]
+    for i in range(w.get("n", 400)):
+        attrs = {"k%d" % j: (rnd.choice(corpus) if rnd.random() < .5 else rs(rnd.randint(0, 6))) for j in range(rnd.randint(0, 3))}
+        text = rnd.choice([None, rnd.choice(corpus), rs(rnd.randint(0, 8))])
+        e = ET.Element("t%d" % (i % 3), attrs)
+        e.text = text
+        for c in range(rnd.randint(0, 2)):
+            ce = ET.SubElement(e, "c", {"n": rs(3)})
+            ce.text = rnd.choice([None, rs(4)])
+        data = b'<?xml version="1.0"?>\n' + ET.tostring(e) + b"\n"
+        try:
+            e2 = ET.fromstring(data)
+        except Exception as ex:
+            bad.append("fromstring(tostring(e)) raised %r" % (ex,))
+            continue
+        cases += 1
+
+        def view(x):
+            return (x.tag, dict(x.attrib), x.text or None, [view(c) for c in x])
+        if view(e) != view(e2):
+            bad.append("%r != %r" % (view(e), view(e2)))
+    return {"cases": cases, "failures": [{"detail": b, "reproduced": True} for b in bad[:3]], "falsified": bool(bad)}
